@@ -185,6 +185,26 @@ CLAIMS["C15"] = (
     "DESIGN.md section 5 C15",
 )
 
+CLAIMS["C16"] = (
+    "guard/return truth tables of every BLE filter and callback; folding of subscribed type tuples; must-dataflow for the timeout order; disjunctive exit analysis with flag tracking",
+    "Decides statically: every BLE filter/callback acts (or returns True) exactly when its own bound address - and handle, except for "
+    "connection-state messages - equal the message's fields (R1); handle-scoped waits, the service listing and device requests subscribe "
+    "their response types plus GATT error and connection state, filter on their own address/handle and raise the specified errors before "
+    "returning (R2); on connect timeout: unsubscribe, then disconnect for the same address, then TimeoutAPIError (R3); every failing exit of "
+    "connect/start_notify has called the remover, the success exit returns it (R4). Isolation as behaviour over all interleavings is not decided.",
+    "DESIGN.md section 5 C16",
+)
+CLAIMS["C17"] = (
+    "set equality of registered vs handled types (folded tables/annotations); disjunctive counting of user-callback calls per path; key-discipline dataflow on the camera stream dict; truth tables of the voice-assistant answers",
+    "Decides statically: for every subscribe_* the registered type set equals what its wrapper handles (R1); exactly one user callback per "
+    "handled path, zero on the incomplete-image path, value built from that message (R2); all camera stream accesses keyed by the message's "
+    "key, chunk appended before the done test, joined data of that key emitted with that key and the entry deleted exactly when done, fresh "
+    "dict per subscription (R3); voice-assistant start answered with port / error by its truth table, every remover retained and called by "
+    "the returned unsubscribe which also cancels a pending start, other subscribe_* return the remover of their own registration (R4). "
+    "Arrival-order behaviour over all streams is not decided.",
+    "DESIGN.md section 5 C17",
+)
+
 UNDER_CONSTRUCTION = "rule set not built yet in this round (see DESIGN.md section 5 for the planned static rules)"
 
 NOT_APPLICABLE = {}
